@@ -1,8 +1,9 @@
 ----------------------------- MODULE GenPredict -----------------------------
 (* Runs the implementation-shaped models (Registry + Scope) on the abstract  *)
 (* inputs of generator cases, in the order Mocker.Mock processes them: for   *)
-(* every requested interface its type-parameter scope, then one scope per    *)
-(* method (parameters, then results with suffix "Out"); at the end the sync  *)
+(* every requested interface one scope per method (parameters, then results  *)
+(* with suffix "Out"), then its type-parameter scope (the MockData literal    *)
+(* evaluates typeParams() after the methods were built); at the end the sync  *)
 (* and source-package imports.  One registry lives through the whole case.   *)
 (* Prints per case what the algorithm AS WRITTEN can do:                     *)
 (*   diverge   the alias recursion never returns            (C19 shape)      *)
